@@ -571,7 +571,8 @@ def do_check(cid, tier, seed):
                 if time.time() > shrink_deadline: return False
                 r = srv.run(c, timeout=cand_timeout)
                 return (not r["ok"]) and r["class"] == cls
-            small, used = shrink(plan, same, budget=int(os.environ.get("VERIF_SHRINK", "300")))
+            if plan.get("noshrink"): small, used = plan, 0
+            else: small, used = shrink(plan, same, budget=int(os.environ.get("VERIF_SHRINK", "300")))
             rdet = srv.run(small)
             k = match_known(known, cid, cls, small, rdet.get("detail", detail))
             if k is not None:
